@@ -104,8 +104,8 @@ def examine(prop, r, mobs, mbits):
         for k, b in enumerate(mbits):
             if not b:
                 continue
-            for pi in range(len(b) // 2):
-                sbit, pbit = b[2 * pi], b[2 * pi + 1]
+            for pi in range(len(b) // 3):
+                sbit, pbit = b[3 * pi], b[3 * pi + 1]
                 limit = stop.get(pi)
                 if pbit == "0" or (sbit == "0" and (limit is None or k < limit)):
                     fails.append({"kind": "invbit", "step": k, "detail": f"pool {pi} bits {sbit}{pbit}"})
